@@ -979,7 +979,27 @@ func (b *BaseStore) AddOperation(ctx context.Context, op operation.Operation, on
 	verifhook.At("store.add.appended", b, e)
 	b.recalculateReplicationStatus(e.GetClock().GetTime())
 
-	marshaledEntry, err := json.Marshal([]ipfslog.Entry{e})
+	// e names every head of the log in memory, so it covers the cached local
+	// head only when the log holds that head. A store that is not completely
+	// loaded (Load(n), LoadFromSnapshot) may not hold it: it is kept next to e,
+	// as replicationLoadComplete does for the remote heads
+	localHeads := []ipfslog.Entry{e}
+	if previousBytes, err := b.Cache().Get(ctx, datastore.NewKey("_localHeads")); err == nil {
+		var previous []*entry.Entry
+		if err := json.Unmarshal(previousBytes, &previous); err == nil {
+			for _, h := range previous {
+				if h == nil || !h.GetHash().Defined() {
+					continue
+				}
+
+				if _, held := oplog.Get(h.GetHash()); !held {
+					localHeads = append(localHeads, h)
+				}
+			}
+		}
+	}
+
+	marshaledEntry, err := json.Marshal(localHeads)
 	if err != nil {
 		b.muWrite.Unlock()
 		return nil, fmt.Errorf("unable to marshal entry: %w", err)
